@@ -58,7 +58,7 @@ class Aff:
         if s.c < 0: neg.append(str(-s.c))
         r = ' + '.join(pos) if pos else '0'
         if neg: r = f'({r}) - (' + ' + '.join(neg) + ')'
-        return '(' + r + ')' if (' ' in r) else r
+        return '(' + r + ')%nat' if (' ' in r) else (r if not r.isdigit() else r + '%nat')
     def __repr__(s): return 'Aff<' + s.coq() + '>'
 
 def aff(x):
@@ -104,7 +104,7 @@ class Ev:
     """symbolic evaluator for one function body"""
     def __init__(s, module, env, classes=None):
         s.mod = module            # ast.Module, for inter-procedural calls
-        s.env = dict(env); s.ret = None
+        s.env = {'np': Const('module:np')}; s.env.update(env); s.ret = None
         s.trace = []              # which functions / branches were entered (dispatch evidence)
     # -- lookup helpers
     def find_func(s, name):
@@ -144,6 +144,9 @@ class Ev:
         if isinstance(e, ast.Call) and ast.unparse(e.func) == 'hasattr' and isinstance(e.args[1], ast.Constant):
             v = s.expr(e.args[0])
             if e.args[1].value == 'toarray': return isinstance(v, RM) and getattr(v, 'sparse', False)
+            if e.args[1].value == 'real' and isinstance(v, (QArr, SparseQ, RM)): return True
+            if e.args[1].value in ('i', 'j', 'k') and isinstance(v, (QArr, SparseQ, RM)): return isinstance(v, SparseQ)
+            if e.args[1].value == 'dtype' and isinstance(v, (QArr, RM)): return True
             raise Unsupported('hasattr ' + e.args[1].value)
         if isinstance(e, ast.Call) and ast.unparse(e.func) == 'np.isscalar':
             v = s.expr(e.args[0]); return isinstance(v, Scal)
@@ -159,6 +162,13 @@ class Ev:
                 return isinstance(e.ops[0], ast.IsNot)
             if isinstance(e.ops[0], ast.Eq) and isinstance(l, Aff) and isinstance(r, Aff) and (l - r).is_const():
                 return (l - r).c == 0
+            if isinstance(l, Kind) and isinstance(r, Kind) and isinstance(e.ops[0], (ast.Eq, ast.NotEq)):
+                return (l.name == r.name) == isinstance(e.ops[0], ast.Eq)
+            if isinstance(l, Tup) and isinstance(r, Tup) and isinstance(e.ops[0], (ast.Eq, ast.NotEq)) \
+               and all(isinstance(x, Aff) for x in l.xs + r.xs) and len(l.xs) == len(r.xs):
+                same = all(a == b for a, b in zip(l.xs, r.xs))
+                if same or all((a - b).is_const() for a, b in zip(l.xs, r.xs)):
+                    return same == isinstance(e.ops[0], ast.Eq)
         raise Unsupported('condition ' + ast.unparse(e))
     def kind_of(s, v):
         if isinstance(v, SparseQ): return 'SparseQuaternionMatrix'
@@ -223,6 +233,8 @@ class Ev:
         if isinstance(v, (RM,)) and e.attr == 'shape': return Tup([v.rows, v.cols])
         if isinstance(v, (RM,)) and e.attr == 'T': return s.transpose(v)
         if isinstance(v, QArr) and e.attr == 'shape': return Tup([v.c[0].rows, v.c[0].cols])
+        if isinstance(v, QArr) and e.attr == 'dtype': return Kind('np.quaternion')
+        if isinstance(v, RM) and e.attr == 'dtype': return Kind('np.float64')
         if isinstance(v, Const) and v.v == 'module:np' and e.attr in ('quaternion', 'ndarray'): return Kind('np.' + e.attr)
         raise Unsupported('attribute ' + ast.unparse(e))
     def transpose(s, v):
@@ -337,3 +349,158 @@ Ev.binop = _binop
 
 def parse(path):
     return ast.parse(open(path).read())
+
+# =====================================================================================
+# Arrays under construction: np.zeros + slice / element writes, loops over range(...)
+# =====================================================================================
+class Arr2(V):
+    """2-D real array being filled by slice writes"""
+    def __init__(s, rows, cols): s.rows = rows; s.cols = cols; s.writes = []
+class Arr3(V):
+    """(m, n, 4) float array being filled by element writes  Q[i, j] = [w, x, y, z]"""
+    def __init__(s, rows, cols): s.rows = rows; s.cols = cols; s.writes = []
+class Lit(V):
+    """np.array([[...]]) literal of scalars"""
+    def __init__(s, rows): s.rows = rows           # list of list of Scal
+class View(V):
+    """slice view  M[r0:r1, c0:c1] of a real matrix"""
+    def __init__(s, base, r0, c0, rows, cols): s.base = base; s.r0 = r0; s.c0 = c0; s.rows = rows; s.cols = cols
+class ScalList(V):
+    def __init__(s, xs): s.xs = xs
+
+def aff_idx(a):
+    """Gallina nat term for an affine index that may mention lambda-bound loop variables"""
+    return a.coq()
+
+class Ev2(Ev):
+    def __init__(s, module, env):
+        super().__init__(module, env)
+        s.loops = []        # [(var, bound Aff)]
+    def call_def(s, fdef, args, selfv=None):
+        return super().call_def(fdef, args, selfv)
+    def slice_bounds(s, sl, dim):
+        lo = s.expr(sl.lower) if sl.lower is not None else Aff(0)
+        hi = s.expr(sl.upper) if sl.upper is not None else dim
+        if sl.step is not None: raise Unsupported('slice step')
+        return aff(lo), aff(hi)
+    def subscript_ext(s, v, e):
+        sl = e.slice
+        if isinstance(v, F4) and isinstance(sl, ast.Tuple) and len(sl.elts) == 2 and not any(isinstance(x, ast.Slice) for x in sl.elts):
+            i = s.expr(sl.elts[0]); j = s.expr(sl.elts[1])
+            if isinstance(i, Aff) and isinstance(j, Aff):
+                return ScalList([Scal(f'({c.t} {aff_idx(i)} {aff_idx(j)})') for c in v.c])
+        if isinstance(v, (RM, View)) and isinstance(sl, ast.Tuple) and len(sl.elts) == 2:
+            a, b = sl.elts
+            base = v if isinstance(v, RM) else None
+            if isinstance(a, ast.Slice) and isinstance(b, ast.Slice) and isinstance(v, RM):
+                r0, r1 = s.slice_bounds(a, v.rows); c0, c1 = s.slice_bounds(b, v.cols)
+                return View(v, r0, c0, r1 - r0, c1 - c0)
+            if not isinstance(a, ast.Slice) and not isinstance(b, ast.Slice):
+                i = aff(s.expr(a)); j = aff(s.expr(b))
+                if isinstance(v, View):
+                    return Scal(f'({v.base.t} {aff_idx(v.r0 + i)} {aff_idx(v.c0 + j)})')
+                return Scal(f'({v.t} {aff_idx(i)} {aff_idx(j)})')
+        raise Unsupported('subscript ' + ast.unparse(e))
+    def view_to_rm(s, v):
+        if isinstance(v, View):
+            r0, c0 = aff_idx(v.r0), aff_idx(v.c0)
+            return RM(f'(fun i_ j_ => {v.base.t} (i_ + {r0})%nat (j_ + {c0})%nat)', v.rows, v.cols)
+        return v
+    def call(s, e):
+        fn = ast.unparse(e.func)
+        if fn == 'np.zeros' and isinstance(e.args[0], ast.Tuple):
+            dims = [aff(s.expr(x)) for x in e.args[0].elts]
+            if len(dims) == 2: return Arr2(dims[0], dims[1])
+            if len(dims) == 3 and dims[2] == Aff(4): return Arr3(dims[0], dims[1])
+            raise Unsupported('np.zeros shape')
+        if fn == 'np.array' and isinstance(e.args[0], ast.List) and all(isinstance(r, ast.List) for r in e.args[0].elts):
+            rows = [[s.expr(x) for x in r.elts] for r in e.args[0].elts]
+            if all(isinstance(x, Scal) for r in rows for x in r): return Lit(rows)
+            raise Unsupported('np.array literal of non-scalars')
+        return super().call(e)
+    def expr(s, e):
+        if isinstance(e, ast.List):
+            xs = [s.expr(x) for x in e.elts]
+            if all(isinstance(x, Scal) for x in xs): return ScalList(xs)
+            raise Unsupported('list literal')
+        r = super().expr(e)
+        return r
+    def assign(s, tgt, val):
+        if isinstance(tgt, ast.Tuple) and isinstance(val, ScalList) and len(tgt.elts) == len(val.xs):
+            for t, v in zip(tgt.elts, val.xs): s.assign(t, v)
+            return
+        if isinstance(tgt, ast.Subscript):
+            arr = s.expr(tgt.value); sl = tgt.slice
+            if isinstance(arr, Arr2) and isinstance(sl, ast.Tuple) and len(sl.elts) == 2 and all(isinstance(x, ast.Slice) for x in sl.elts):
+                r0, r1 = s.slice_bounds(sl.elts[0], arr.rows); c0, c1 = s.slice_bounds(sl.elts[1], arr.cols)
+                if isinstance(val, View): val = s.view_to_rm(val)
+                if not isinstance(val, (RM, Lit)): raise Unsupported('slice write of ' + type(val).__name__)
+                arr.writes.append((list(s.loops), r0, r1, c0, c1, val)); return
+            if isinstance(arr, Arr3) and isinstance(sl, ast.Tuple) and len(sl.elts) == 2 and isinstance(val, ScalList) and len(val.xs) == 4:
+                i = aff(s.expr(sl.elts[0])); j = aff(s.expr(sl.elts[1]))
+                arr.writes.append((list(s.loops), i, j, val)); return
+        super().assign(tgt, val)
+    def stmt_ext(s, st):
+        if isinstance(st, ast.For) and isinstance(st.target, ast.Name) and isinstance(st.iter, ast.Call) \
+           and ast.unparse(st.iter.func) == 'range' and len(st.iter.args) == 1 and not st.orelse:
+            bound = aff(s.expr(st.iter.args[0]))
+            var = st.target.id
+            if any(var == v for v, _ in s.loops): raise Unsupported('nested loop reuses variable')
+            s.loops.append((var, bound)); s.env[var] = Aff.sym(var)
+            s.block(st.body)
+            s.loops.pop()
+            return
+        super().stmt_ext(st)
+    # -- finalisation
+    def finalize(s, v):
+        if isinstance(v, Arr2): return s.fin_arr2(v)
+        if isinstance(v, Arr3): return s.fin_arr3(v)
+        if isinstance(v, Lit):
+            lit = '[' + '; '.join('[' + '; '.join(x.t for x in r) + ']' for r in v.rows) + ']'
+            return RM(f'(fun I_ J_ => sel2 I_ J_ {lit})', Aff(len(v.rows)), Aff(len(v.rows[0])))
+        if isinstance(v, View): return s.view_to_rm(v)
+        return v
+    def fin_arr2(s, a):
+        if all(not w[0] for w in a.writes):
+            term = 'c0'
+            for (_, r0, r1, c0, c1, val) in a.writes:          # later writes override earlier ones
+                if not isinstance(val, RM): raise Unsupported('window write of a literal')
+                body = f'{val.t} (I_ - {aff_idx(r0)})%nat (J_ - {aff_idx(c0)})%nat'
+                term = f'if inwin I_ J_ {aff_idx(r0)} {aff_idx(r1)} {aff_idx(c0)} {aff_idx(c1)} then {body} else ({term})'
+            return RM(f'(fun I_ J_ => {term})', a.rows, a.cols)
+        if len(a.writes) == 1 and len(a.writes[0][0]) == 2:
+            (loops, r0, r1, c0, c1, val) = a.writes[0]
+            (vi, bi), (vj, bj) = loops
+            if not isinstance(val, Lit): raise Unsupported('tile write of non-literal')
+            sr, sc = len(val.rows), len(val.rows[0])
+            if r0 == Aff(0, {vi: sr}) and r1 == r0 + sr and c0 == Aff(0, {vj: sc}) and c1 == c0 + sc \
+               and a.rows == bi * sr and a.cols == bj * sc:
+                lit = '[' + '; '.join('[' + '; '.join(x.t for x in r) + ']' for r in val.rows) + ']'
+                return RM(f'(fun I_ J_ => (fun {vi} {vj} => sel2 (I_ mod {sr})%nat (J_ mod {sc})%nat {lit}) (I_ / {sr})%nat (J_ / {sc})%nat)', a.rows, a.cols)
+        raise Unsupported('unrecognised write pattern for a 2-D array')
+    def fin_arr3(s, a):
+        if len(a.writes) == 1 and len(a.writes[0][0]) == 2:
+            (loops, i, j, val) = a.writes[0]
+            (vi, bi), (vj, bj) = loops
+            if i == Aff.sym(vi) and j == Aff.sym(vj) and bi == a.rows and bj == a.cols:
+                return F4([RM(f'(fun {vi} {vj} => {x.t})', a.rows, a.cols) for x in val.xs])
+        raise Unsupported('unrecognised write pattern for an (m,n,4) array')
+    def stmt(s, st):
+        if isinstance(st, ast.Return) and st.value is not None:
+            v = s.expr(st.value)
+            if isinstance(v, Tup): v = Tup([s.finalize(x) for x in v.xs])
+            else: v = s.finalize(v)
+            s.ret = v; return
+        super().stmt(st)
+
+# as_quat_array on a finalised (m,n,4) array
+_orig_call2 = Ev2.call
+def _call2(s, e):
+    fn = ast.unparse(e.func)
+    if fn == 'quaternion.as_quat_array' and len(e.args) == 1:
+        v = s.expr(e.args[0])
+        if isinstance(v, Arr3): return QArr(s.fin_arr3(v).c)
+        if isinstance(v, F4): return QArr(v.c)
+        raise Unsupported('as_quat_array of ' + type(v).__name__)
+    return _orig_call2(s, e)
+Ev2.call = _call2
